@@ -158,6 +158,12 @@ func fixedC03World() (*c03World, []*ophosttypes.MsgFinalizeTokenWithdrawal) {
 			panic(r.Err)
 		}
 		e.Fund(ophosttypes.BridgeAddress(b), sdk.NewCoin("uinit", c03Rich), sdk.NewCoin("uusdc", c03Rich))
+		e.Fund(w.users[0].Addr, coinOf("uinit", 10), coinOf("uusdc", 10))
+		for _, d := range []string{"uinit", "uusdc"} {
+			if r := e.Deliver(ophosttypes.NewMsgInitiateTokenDeposit(w.users[0].Str, b, "l2-recipient", coinOf(d, 1), nil)); !r.OK() {
+				panic(r.Err)
+			}
+		}
 	}
 	mk := func(b uint64, first uint64, n int) []wd {
 		var ts []wd
